@@ -80,6 +80,39 @@ Example C14_ex :
   admission default_config s = None /\ (errors s = 1)%Z /\ hard default_config <= cost s.
 Proof. vm_compute. repeat split; discriminate. Qed.
 
+(* the arithmetic itself is regenerated from the source on every run: the expressions of data_received,
+   _send_message, _bump_errors, bump_cost, recalc_concurrency and the cost sleep of _throttled_request are
+   translated term by term (gen/Gen_session.v, the definitions gen_...), every one of them was understood by the translator, and
+   evaluated over exact rationals they are the formulas the model is built from - for every configuration,
+   state and argument *)
+Theorem C14_generated_known :
+  forallb aknown [gen_recv_charge; gen_send_charge; gen_error_charge; gen_bump_cost; gen_bump_drift; gen_recalc_decayed;
+                  gen_soft_range; gen_eval_cost; gen_fraction; gen_target; gen_sleep] = true.
+Proof. exact generated_known. Qed.
+
+Theorem C14_generated_arithmetic : forall c s delta len exc extra x,
+  let env := aenv c s delta len exc extra x in
+  aeval env gen_recv_charge = len * bw c /\
+  aeval env gen_send_charge = len * bw c /\
+  aeval env gen_error_charge = error_base c + exc /\
+  aeval env gen_bump_cost = qmax 0 (cost s + delta) /\
+  aeval env gen_bump_drift = qabs (cost s - cost_last s) /\
+  aeval env gen_recalc_decayed = qmax 0 (cost s - (now s - cost_time s) * decay c) /\
+  aeval env gen_soft_range = hard c - soft c /\
+  aeval env gen_eval_cost = cost s + extra /\
+  aeval env gen_fraction = fraction_of c x /\
+  aeval env gen_target == inject_Z (Z.max 0 (Qceiling ((1 - fraction s) * inject_Z (initial c)))) /\
+  aeval env gen_sleep = fraction s * cost_sleep c.
+Proof. exact generated_arithmetic. Qed.
+
+Theorem C14_recalc_uses_generated : forall c extra s,
+  cost (recalc c extra s) == aeval (aenv c s 0 0 0 extra 0) gen_recalc_decayed /\
+  (Qle_bool (aeval (aenv c s 0 0 0 extra 0) gen_soft_range) 0 = false ->
+   let s1 := recalc c extra s in
+   fraction s1 == aeval (aenv c s 0 0 0 extra (cost s1 + extra)) gen_fraction /\
+   inject_Z (ctarget s1) == aeval (aenv c s1 0 0 0 extra 0) gen_target).
+Proof. exact recalc_uses_generated. Qed.
+
 Print Assumptions C14_default_config_sane.
 Print Assumptions C14_cost_nonneg.
 Print Assumptions C14_charges_and_lazy_recalc.
@@ -91,3 +124,6 @@ Print Assumptions C14_sleep_proportional_bounded.
 Print Assumptions C14_refused_after_hard.
 Print Assumptions C14_unthrottled_below_soft.
 Print Assumptions C14_client_never_throttled.
+Print Assumptions C14_generated_known.
+Print Assumptions C14_generated_arithmetic.
+Print Assumptions C14_recalc_uses_generated.
